@@ -22,6 +22,8 @@ import traceback
 
 HERE = os.path.dirname(os.path.abspath(__file__))
 REPO = os.environ.get("VERIF_REPO", "/repo")
+# development aid (tools/run_seeded.py): evidence of runs against a scratch tree goes elsewhere
+EVIDENCE_DIR = os.environ.get("VERIF_EVIDENCE_DIR") or os.path.join(os.path.dirname(os.path.abspath(__file__)), "evidence")
 sys.path.insert(0, HERE)
 sys.path.insert(0, REPO)
 os.environ.setdefault("JSONPATH_VERIF", "1")
@@ -114,7 +116,7 @@ def main():  # noqa: PLR0912, PLR0915
             json.dump(base, fd, indent=1, sort_keys=True)
         print(f"baseline ledger updated for {len(results)} contracts of {prop}")
     os.makedirs(os.path.join(HERE, "replays"), exist_ok=True)
-    os.makedirs(os.path.join(HERE, "evidence"), exist_ok=True)
+    os.makedirs(EVIDENCE_DIR, exist_ok=True)
     violations = []  # (what, replay path, tail)
     known_lines = []
     undecided = []
@@ -229,7 +231,7 @@ def main():  # noqa: PLR0912, PLR0915
         "wall_s": round(wall, 2),
         "violations": len(violations),
     }
-    with open(os.path.join(HERE, "evidence", f"{prop}.json"), "w", encoding="utf-8") as fd:
+    with open(os.path.join(EVIDENCE_DIR, f"{prop}.json"), "w", encoding="utf-8") as fd:
         json.dump(evidence, fd, indent=1, default=str)
 
     for line in known_lines:
